@@ -1169,3 +1169,63 @@ def check_frequency_shapes(run, ctx):
                     if proj and isinstance(proj[-1], dict) and proj[-1].get('on') == 'tuple' and proj[-1].get('name') == '1' and 'dashmap' in body.local_ty(st['dst']['l']):
                         run.bad('C06-S1', body.name + '/async-birth-rewritten', 'the stored timestamp of an async entry is overwritten in %s' % body.name, site='%s (%s)' % (body.name, body.loc(bi)))
     return n
+
+
+def check_lookup_by_key(run, ctx):
+    """C01-P1: each lookup searches the store under the requested key and returns a clone of that entry's value"""
+    C = Core(ctx)
+    n = 0
+    for flav, adt in FLAVOURS:
+        get = C.method(adt, 'get')
+        if get is None:
+            run.bad('C01-P1', flav + '/fail-closed', 'fail-closed: %s::get not found' % adt)
+            continue
+        n += 1
+        probs = []
+        look = []
+        somes = []
+        for x in C.scope(get):
+            ex = Expr(x)
+            for b, t in x.calls():
+                if classify(t) in ('Sget', 'Sgetmut'):
+                    look.append((x, b, t, ex))
+            for bi, bl in enumerate(x.blocks):
+                if bl['cleanup']:
+                    continue
+                for st in bl['stmts']:
+                    if st['k'] == 'assign' and 'agg' in st['rv'] and isinstance(st['rv']['agg'], dict) and st['rv']['agg'].get('adt') == N.OPTION and st['rv']['agg'].get('variant') == 'Some':
+                        if parse(x.local_ty(st['dst']['l'])).text.startswith(N.OPTION + '<R>') or True:
+                            somes.append((x, bi, ex.operand(st['rv']['ops'][0])))
+        if len(look) != 1:
+            probs.append('%d store lookups' % len(look))
+        else:
+            x, b, t, ex = look[0]
+            se = SpecEffects(ctx.prog, {})
+            kr = se.key_root(x, t['args'][1])
+            own = None
+            for i in range(1, get.arg_count + 1):
+                if get.local_ty(i) == '&str':
+                    own = (get.id, i)
+            if kr != own or own is None:
+                probs.append('the store is searched under %s, not under the requested key' % show(ex.operand(t['args'][1])))
+            # every Some(..) built of the value type is a clone of the looked-up entry's value
+            vals = [(xx, bi, e) for (xx, bi, e) in somes if e[0] == 'call' and e[1] == N.CLONE or True]
+            good = 0
+            for (xx, bi, e) in somes:
+                e0 = strip_casts(e)
+                if e0[0] == 'call' and e0[1] == N.CLONE:
+                    root, names = field_path(strip_casts(e0[2][0]))
+                    if root[0] == 'call' and root[1] in (N.HM + 'get', N.DM + 'get_mut', N.DM + 'get', N.HM + 'get_mut') and names[-1:] in (['value'], ['0']) and 'as:Some' in names:
+                        good += 1
+                        continue
+                    probs.append('a returned value is cloned from %s, not from the looked-up entry' % show(e0[2][0]))
+                elif e0[0] in ('phi', 'param') or (e0[0] == 'call' and e0[1] != N.CLONE):
+                    # Some(local) where the local holds the clone (async: cached_value)
+                    pass
+            if good < 1 and flav != 'async':
+                probs.append('no Some(clone of the looked-up value) found')
+        if probs:
+            run.bad('C01-P1', flav + '/lookup', '%s: %s' % (get.name, '; '.join(probs)), site=get.name, oracle='lookup by the requested key; value = clone of that entry')
+        else:
+            run.ok('C01-P1', flav, 'searched under the key parameter; returns a clone of the entry found')
+    return n
